@@ -15,6 +15,7 @@ type EffectInfo struct {
 	// GlobalWritten: package-level variables assigned anywhere outside their own declaration/initialiser functions.
 	GlobalWritten map[*types.Var]bool
 	InitFuncs     map[*types.Func]bool // functions that run only during package initialisation
+	AddressTaken  map[*types.Func]string
 }
 
 type FuncEffects struct {
@@ -28,10 +29,12 @@ type FuncEffects struct {
 	DynCalls     []string          // calls through function values / interfaces (description@pos)
 	MapRanges    []string          // range over Go maps (positions)
 	Allocates    bool
+	ParamCalls   map[int]bool // calls through function-typed parameters (by parameter index)
+	FuncValues   map[*types.Func]string // package functions used as values (not called) -> position
 }
 
 func newFE() *FuncEffects {
-	return &FuncEffects{Writes: map[string]bool{}, GlobalsRead: map[*types.Var]string{}, GlobalsWrite: map[*types.Var]string{}, Callees: map[*types.Func]string{}, ExtCalls: map[string]string{}}
+	return &FuncEffects{Writes: map[string]bool{}, GlobalsRead: map[*types.Var]string{}, GlobalsWrite: map[*types.Var]string{}, Callees: map[*types.Func]string{}, ExtCalls: map[string]string{}, ParamCalls: map[int]bool{}, FuncValues: map[*types.Func]string{}}
 }
 
 func (e *Engine) isPkgGlobal(v *types.Var) bool {
@@ -101,6 +104,99 @@ func (e *Engine) ComputeEffects() *EffectInfo {
 		for v := range fe.GlobalsWrite {
 			ei.GlobalWritten[v] = true
 		}
+	}
+	// functions used as values (stored in tables, assigned to fields): they can be called from anywhere a
+	// function value is called, so they count as roots of the reachability analyses
+	ei.AddressTaken = map[*types.Func]string{}
+	for _, f := range e.P.Pkg.Syntax {
+		var stack []ast.Node
+		ast.Inspect(f, func(n ast.Node) bool {
+			if n == nil {
+				stack = stack[:len(stack)-1]
+				return true
+			}
+			stack = append(stack, n)
+			var id *ast.Ident
+			switch x := n.(type) {
+			case *ast.Ident:
+				id = x
+			default:
+				return true
+			}
+			fn, ok := info.Uses[id].(*types.Func)
+			if !ok || fn.Pkg() != e.P.Pkg.Types {
+				return true
+			}
+			// is this identifier the callee of a call?
+			if len(stack) >= 2 {
+				par := stack[len(stack)-2]
+				if ce, ok := par.(*ast.CallExpr); ok && ce.Fun == n {
+					return true
+				}
+				if se, ok := par.(*ast.SelectorExpr); ok && se.Sel == id && len(stack) >= 3 {
+					if ce, ok := stack[len(stack)-3].(*ast.CallExpr); ok && ce.Fun == par {
+						return true
+					}
+				}
+			}
+			if _, ok := ei.AddressTaken[fn]; !ok {
+				ei.AddressTaken[fn] = e.posStr(id.Pos())
+			}
+			return true
+		})
+	}
+	// callbacks passed as parameters must be literals or forwarded parameters at every in-package call site
+	for _, fi := range e.P.Funcs {
+		if fi.Obj == nil {
+			continue
+		}
+		csig, _ := fi.Obj.Type().(*types.Signature)
+		ast.Inspect(fi.Decl.Body, func(n ast.Node) bool {
+			ce, ok := n.(*ast.CallExpr)
+			if !ok {
+				return true
+			}
+			var callee *types.Func
+			switch f := ce.Fun.(type) {
+			case *ast.Ident:
+				callee, _ = info.Uses[f].(*types.Func)
+			case *ast.SelectorExpr:
+				callee, _ = info.Uses[f.Sel].(*types.Func)
+			}
+			if callee == nil {
+				return true
+			}
+			ce2 := ei.Local[callee]
+			if ce2 == nil || len(ce2.ParamCalls) == 0 {
+				return true
+			}
+			for i := range ce2.ParamCalls {
+				if i >= len(ce.Args) {
+					continue
+				}
+				switch a := ce.Args[i].(type) {
+				case *ast.FuncLit:
+					continue
+				case *ast.Ident:
+					if v, ok := info.Uses[a].(*types.Var); ok && csig != nil {
+						fwd := false
+						for j := 0; j < csig.Params().Len(); j++ {
+							if csig.Params().At(j) == v {
+								fwd = true
+							}
+						}
+						if fwd {
+							// the caller forwards its own callback parameter
+							ei.Local[fi.Obj].ParamCalls[paramIndex(csig, v)] = true
+							continue
+						}
+					}
+				}
+				ce2.Top = true
+				ce2.TopWhy = append(ce2.TopWhy, "callback argument at "+e.posStr(ce.Pos())+" is neither a literal nor a forwarded parameter")
+			}
+			return true
+		})
 	}
 	// transitive closure (simple fixpoint)
 	for fn, fe := range ei.Local {
@@ -305,6 +401,17 @@ func (e *Engine) localEffectsOwner(fi *FuncInfo, owner *FuncInfo) *FuncEffects {
 			}
 		}
 	}
+	lhsIdents := map[*ast.Ident]bool{}
+	ast.Inspect(fi.Decl.Body, func(n ast.Node) bool {
+		if as, ok := n.(*ast.AssignStmt); ok && as.Tok == token.ASSIGN {
+			for _, l := range as.Lhs {
+				if id, ok := l.(*ast.Ident); ok {
+					lhsIdents[id] = true
+				}
+			}
+		}
+		return true
+	})
 	ast.Inspect(fi.Decl.Body, func(n ast.Node) bool {
 		switch n := n.(type) {
 		case *ast.AssignStmt:
@@ -335,7 +442,9 @@ func (e *Engine) localEffectsOwner(fi *FuncInfo, owner *FuncInfo) *FuncEffects {
 				}
 			}
 		case *ast.Ident:
-			noteGlobalRead(n)
+			if !lhsIdents[n] {
+				noteGlobalRead(n)
+			}
 		case *ast.CompositeLit, *ast.FuncLit:
 			fe.Allocates = true
 		case *ast.UnaryExpr:
@@ -433,6 +542,18 @@ func (e *Engine) callEffects(fi *FuncInfo, fe *FuncEffects, ce *ast.CallExpr) {
 			if !e.isPkgGlobal(o) && e.isLocalClosure(fi, o) {
 				return // body is scanned in place (ast.Inspect descends into the FuncLit)
 			}
+			// call through a function-typed parameter: the argument's effects are accounted at the call sites
+			// (checked by ComputeEffects: every in-package call site passes a literal or forwards its own parameter)
+			if fi.Obj != nil {
+				sig := fi.Obj.Type().(*types.Signature)
+				for i := 0; i < sig.Params().Len(); i++ {
+					if sig.Params().At(i) == o {
+						fe.ParamCalls[i] = true
+						fe.DynCalls = append(fe.DynCalls, "param-callback "+f.Name+"@"+pos)
+						return
+					}
+				}
+			}
 			fe.DynCalls = append(fe.DynCalls, "func value "+f.Name+"@"+pos)
 			fe.Top = true
 			fe.TopWhy = append(fe.TopWhy, "call through function value "+f.Name+" at "+pos)
@@ -507,6 +628,15 @@ func (e *Engine) callEffects(fi *FuncInfo, fe *FuncEffects, ce *ast.CallExpr) {
 		fe.Writes["json-target"] = true
 		fe.Allocates = true
 	}
+}
+
+func paramIndex(sig *types.Signature, v *types.Var) int {
+	for j := 0; j < sig.Params().Len(); j++ {
+		if sig.Params().At(j) == v {
+			return j
+		}
+	}
+	return -1
 }
 
 func pureIfaceMethod(name string) bool {
